@@ -1358,7 +1358,6 @@ func (in *Interp) lookupFunc(pkgPath, name string) *ssa.Function {
 	return f
 }
 
-
 func shortFile(f string) string {
 	if i := strings.Index(f, "/repo/"); i >= 0 {
 		return f[i+6:]
@@ -1467,7 +1466,6 @@ func (in *Interp) freezeSlots(p *Value, lbl string, seen map[interface{}]bool) {
 	in.freeze(*p, lbl, seen)
 }
 
-
 // concPtr turns a symbolic pointer into a concrete one by concretising its index.
 func (in *Interp) concPtr(v Value) *Value {
 	switch p := v.(type) {
@@ -1480,7 +1478,6 @@ func (in *Interp) concPtr(v Value) *Value {
 	panic(fmt.Sprintf("concPtr of %T", v))
 }
 
-
 var fnNames sync.Map // *ssa.Function -> string
 
 func fnName(fn *ssa.Function) string {
@@ -1491,7 +1488,6 @@ func fnName(fn *ssa.Function) string {
 	fnNames.Store(fn, n)
 	return n
 }
-
 
 var rangeOrdinals sync.Map // *ssa.Function -> map[*ssa.Range]int
 
